@@ -41,6 +41,12 @@ structure Secrets where
   minimal : Bool
   /-- fingerprints of other keys, offered in front of the right one -/
   extraFps : List Nat
+  /-- fingerprints of other keys, offered after the right one -/
+  laterFps : List Nat := []
+
+/-- the fingerprints the server lists in `resPQ`: that of its key (`fp`) with those of its other keys
+before and after it — the right one may stand anywhere in the list -/
+def Secrets.offered (s : Secrets) (fp : Nat) : List Nat := s.extraFps ++ fp :: s.laterFps
 
 /-- TL string: length header (one byte below 254, else 0xfe + 3 bytes), content, zero padding to 4 -/
 def tlString (bs : Bytes) : Bytes :=
@@ -65,7 +71,7 @@ def srvResPQ (R : Registry) (P : Prims) (key : PubKey) (s : Secrets) (req : Byte
   match decodeUnknown R P.gunzip (fuelFor req) [] req with
   | .ok (.obj id [.big _ nonce]) =>
     if id = idReqPQ then
-      match marshal R (vResPQ nonce s.serverNonce (bigBytes (s.p * s.q)) (s.extraFps ++ [specFingerprint P.H key])) with
+      match marshal R (vResPQ nonce s.serverNonce (bigBytes (s.p * s.q)) (s.offered (specFingerprint P.H key))) with
       | .ok r => some (nonce, r)
       | _ => none
     else none
@@ -187,7 +193,7 @@ draws have the lengths `crypto/rand` / `dry.RandomBytes` deliver; its key is an 
 (`2^2047 ≤ n < 2^2048`, `e` an `int`). About the server: `d` inverts `e` (`(m^e)^d ≡ m` below `n`);
 `server_nonce` is 128 bits; `pq` is the product of `p < 2^32` and `q < 2^32` and the factoring
 parameter returns them; `g` is a positive `int32`; `0 < dh_prime < 2^2048`; the padding source has 15
-bytes; the further fingerprints are 64-bit. And the protocol's own validity condition on `g_b`
+bytes; the further fingerprints (before and after the right one) are 64-bit. And the protocol's own validity condition on `g_b`
 (`1 < g^b mod dh_prime < dh_prime − 1`), without which a conformant server must refuse.
 NO condition on the leading bytes of any value. -/
 structure ExchangeHyps (c : Cfg) (s : Secrets) : Prop where
@@ -211,8 +217,8 @@ structure ExchangeHyps (c : Cfg) (s : Secrets) : Prop where
   dhFit : s.dhPrime < 2 ^ 2048
   time : s.time < 2 ^ 32
   pad : 15 ≤ s.pad.length
-  fps : ∀ f ∈ s.extraFps, f < 2 ^ 64
-  fpsLen : s.extraFps.length + 1 < 2 ^ 32
+  fps : ∀ f ∈ s.extraFps ++ s.laterFps, f < 2 ^ 64
+  fpsLen : s.extraFps.length + 1 + s.laterFps.length < 2 ^ 32
   gb : 1 < powMod s.g (fromBE c.d.b) s.dhPrime ∧ powMod s.g (fromBE c.d.b) s.dhPrime < s.dhPrime - 1
   colAnswer : ∀ answer, marshal c.R (srvAnswerVal c s) = .ok answer →
     NoLongerCollision c.P.H answer (s.pad.take (tempPadLen (20 + answer.length)))
